@@ -171,4 +171,5 @@ func registerIntrinsics(vm *VM) {
 	registerSyncPrims(vm)
 	registerAtomic(vm)
 	registerSyncPool(vm)
+	registerMapsPkg(vm)
 }
